@@ -1,8 +1,8 @@
 (* C01 - Control flow and variables determine exactly which rows run, and in what order.
    SPEC: StmtSpec.exec (the sequential reading).  MODEL: Stmt.next (StmtIterator::next_with_context)
    driven to the end.  Property theorems only; proofs in proofs/StmtRefine.v, StmtCorollaries.v. *)
-From DTR Require Import Prelude I64 Ast FramedMap Parser Bind Eval Stmt StmtSpec Iter ExpandSpec WfSpec RunSpec.
-From DTR.proofs Require Import FramedMapProof StmtRefine StmtCorollaries AfterErrorProof IterLogProof NoPanicProof RunRefine.
+From DTR Require Import Prelude I64 Ast FramedMap Parser Bind Eval Stmt StmtSpec StmtSpecE Iter ExpandSpec WfSpec RunSpec.
+From DTR.proofs Require Import FramedMapProof StmtRefine StmtRefineE StmtCorollaries AfterErrorProof IterLogProof NoPanicProof RunRefine.
 Local Open Scope Z_scope.
 
 (* For EVERY program, context, evaluation functions and row handler (the handler stands for all
@@ -103,6 +103,44 @@ Theorem C01_bits_msb_first : forall k v j, (j < k)%nat ->
   nth_error (bits_entries k v) j = Some (DNum (Z.land (Z.shiftr v (Z.of_nat (k - 1 - j))) 1)).
 Proof. exact bits_msb_first. Qed.
 
+(* THROUGH ERRORS. SPEC: StmtSpecE.exec_e, the sequential reading for a caller that keeps iterating after error items (a failing let / row / loop bound is skipped, a failing while condition is evaluated again; on_err is the caller's reaction to an error item, it may stop). MODEL: the resumable iterator driven by such a caller (drain_e). Both directions, every program, context, evaluator, row handler and error handler *)
+Theorem C01_iterator_refines_sequential_reading_through_errors :
+  forall (C F W : Type) (eval : C -> expr -> C * (Z + F)) (row_eval : C -> list dentry -> C * (W + F))
+  (setv : C -> name -> Z -> C) (getv : C -> name -> option Z) (push pop reset : C -> C)
+  (H : Type) (handler : H -> W * N -> C -> H * C + H) (on_err : H -> F -> C -> H * C + H)
+  (prog : list stmt) (c : C) (h : H) (fuel : nat) (o : outcome C F H),
+  exec_e C F W eval row_eval setv getv push pop reset H handler on_err fuel prog c h = o ->
+  o <> OutOfFuel ->
+  exists fuel' : nat,
+  drain_e C F W eval row_eval setv getv push pop reset H handler on_err fuel' (SI prog Iterate) c h =
+  o.
+Proof. exact iterator_refines_sequential_reading_through_errors. Qed.
+
+(* the converse *)
+Theorem C01_sequential_reading_refines_iterator_through_errors :
+  forall (C F W : Type) (eval : C -> expr -> C * (Z + F)) (row_eval : C -> list dentry -> C * (W + F))
+  (setv : C -> name -> Z -> C) (getv : C -> name -> option Z) (push pop reset : C -> C)
+  (H : Type) (handler : H -> W * N -> C -> H * C + H) (on_err : H -> F -> C -> H * C + H)
+  (prog : list stmt) (c : C) (h : H) (fuel : nat) (o : outcome C F H),
+  drain_e C F W eval row_eval setv getv push pop reset H handler on_err fuel (SI prog Iterate) c h = o ->
+  o <> OutOfFuel ->
+  exists fuel' : nat,
+  exec_e C F W eval row_eval setv getv push pop reset H handler on_err fuel' prog c h = o.
+Proof. exact sequential_reading_refines_iterator_through_errors. Qed.
+
+(* the two readings agree on every run of the plain reading that does not end in an evaluation failure *)
+Theorem C01_reading_through_errors_agrees_with_the_plain_reading :
+  forall (C F W : Type) (eval : C -> expr -> C * (Z + F)) (row_eval : C -> list dentry -> C * (W + F))
+  (setv : C -> name -> Z -> C) (getv : C -> name -> option Z) (push pop reset : C -> C)
+  (H : Type) (handler : H -> W * N -> C -> H * C + H) (on_err : H -> F -> C -> H * C + H)
+  (prog : list stmt) (c : C) (h : H) (fuel : nat) (o : outcome C F H),
+  exec C F W eval row_eval setv getv push pop reset H handler fuel prog c h = o ->
+  (forall (x : F) (c' : C) (h' : H), o <> Fail x c' h') ->
+  o <> OutOfFuel ->
+  exec_e C F W eval row_eval setv getv push pop reset H handler on_err fuel prog c h = o.
+Proof. exact exec_e_agrees_unless_fail. Qed.
+
+
 (* ---- the iterator after an error item (callers may keep calling next()) *)
 (* after an error item the iterator can be called again (the Rust object was mutated before `?` returned): a failing `let` is consumed - the old binding stays - and the run goes on with the rest of the block *)
 Theorem C01_after_failing_let :
@@ -188,3 +226,5 @@ Print Assumptions C01_run_is_the_sequential_reading.
 Print Assumptions C01_sequential_reading_is_the_run.
 Print Assumptions C01_after_failing_while_condition.
 Print Assumptions C01_error_inside_loop_keeps_the_loop_open.
+Print Assumptions C01_iterator_refines_sequential_reading_through_errors.
+Print Assumptions C01_sequential_reading_refines_iterator_through_errors.
